@@ -5,6 +5,7 @@ incremental log-likelihood with its definition, bookkeeping, reproducibility).""
 import io
 import itertools
 import math
+import time
 import contextlib
 import signal
 import struct
@@ -23,26 +24,36 @@ for _v in ("OMP_NUM_THREADS", "OPENBLAS_NUM_THREADS", "MKL_NUM_THREADS"):
 if hasattr(sys, "set_int_max_str_digits"):
     sys.set_int_max_str_digits(0)
 
-RULE = ("random small hypergraphs (3-8 nodes with arbitrary int/str labels, 1-9 hyperedges of size 2..5, weighted or "
-        "not, 0-2 isolated nodes, at least K non-isolated nodes), K in {2,3}, seed, n_realizations in {1,3}, max_iter "
+RULE = ("first the committed witnesses of every repaired defect (D30, D36, D37) and of the known findings (D34, D35); then "
+        "(a) random small hypergraphs (3-8 nodes with arbitrary int/str labels, 1-9 hyperedges of size 2..5, weighted or "
+        "not, 0-2 isolated nodes, at least K non-isolated nodes; some built through a detour: temporary hyperedges / a "
+        "temporary node inserted midway and removed again), K in {2,3}, seed, n_realizations in {1,3}, max_iter "
         "in 1..30, min_value_par in {0, 1e-5}, normalizeU and baseline_r0 both; each configuration is run through "
         "HypergraphMT.fit twice and once more step by step (the harness drives _update_em and reads u, w, psiOmega, "
-        "psiBarOmega, rho after every sweep); HySC.fit twice. A case is distinct by (hyperedges, weights, isolated "
-        "nodes, K, seed, configuration); non-trivial when at least two EM sweeps ran, the log-likelihood strictly "
-        "increased at least once and the returned u has two different non-zero rows")
+        "psiBarOmega, rho after every sweep); HySC.fit twice; a third of them once more after a fit with another seed and "
+        "after an in-place change of the hypergraph (against a freshly built equal hypergraph); "
+        "(b) degenerate hypergraphs: one dominant hyperedge of size 2..8 plus 0-2 sub-hyperedges and 0-3 isolated nodes, K from "
+        "2 up to the number of covered nodes (beyond it with a random start), default threshold mostly, several seeds per "
+        "hypergraph, run through fit and step by step with the validity oracles on the state after EVERY sweep; "
+        "(c) exact dyadic states with zero entries / columns with a single non-zero entry on the object's attributes. "
+        "A case is distinct by (hyperedges, weights, isolated nodes, K, seed, configuration); non-trivial when at least two "
+        "EM sweeps ran, the log-likelihood strictly increased at least once and the returned u has two different non-zero rows")
 ASSUMPTIONS = [
     "hyperedges have size >= 2 (size 1 has no affinity row), weights > 0, at least K non-isolated nodes (KMeans needs n_samples >= n_clusters)",
     "fix_communities, fix_w, gammaU, gammaW, initialize_u0/w0, out_inference at their defaults; check_convergence_every = 1",
     "ascent is demanded for normalizeU=False; agreement incremental = definition for min_value_par=0 (the property's quantifier)",
     "a decrease of the recorded log-likelihood is tolerated only in a sweep with a clamp/repair event (D34) or in an ill-conditioned state (min positive u < 1e-20 or max w > 1e10, D35); both classes are replayed from committed witnesses",
+    "the state after sweep t of a realisation is what fit returns for max_iter = t+1, n_realizations = 1 and that realisation's seed: an invalid intermediate state is reported only after fit itself was run on that configuration and returned / raised the same",
+    "a hypergraph object that was fitted before (other seed) or changed in place gives the same result as a freshly built hypergraph with the same insertion history",
 ]
 TRUSTED = [
     "k-means (sklearn), np.linalg.eig, scipy.optimize.root (Lagrange multiplier), RandomState draws: parameters of the model, their values are read from the running implementation",
     "binary64 vs exact arithmetic: model sweeps are compared at 1e-9 relative (per array scale); the generic Lean definitions are run at Float for whole trajectories and at Rat on small dyadic states",
     "log/exp of numpy; the model returns the Poisson means and the penalty, the harness applies math.log",
+    "normalizeU=True: the root finder is outside the proof (contract LamOk of C17_normalized_row); row sums are checked on the code after every sweep, up to 1e-6 + K*min_value_par + 16 * (change of the constraint over one binary64 step of the multiplier at its root, found by bisection on the bit patterns); a numerator below 1e-290 counts as unrepresentable",
     "the u-clamps (min_value_par, max_value_par) are modelled; the negative-psi repairs are not (exact arithmetic never triggers them); ascent is proved for sweeps in which no clamp fires",
 ]
-BUDGET_S = {"quick": 55, "thorough": 840}
+BUDGET_S = {"quick": 50, "thorough": 840}
 
 EPS = 1e-20
 INF = 1e10
@@ -81,6 +92,63 @@ def quiet():
 # ------------------------------------------------------------------------------------------
 # generation
 
+WEIGHTS = [1, 2, 3, 5, 0.5, 1.5, 2.25, 7]
+WEIGHTS_WIDE = [1, 1, 2, 3, 0.5, 1.5, 2.25, 0.125, 0.75, 7, 40, 2.5, 1000.0, 0.001, 0.1, 2.7]   # non-integers (also non-dyadic), < 1, large, tiny
+
+
+def skey(e):
+    return tuple(sorted(e, key=repr))
+
+
+def gen_history(rng, case, labels, core):
+    """optional parts of a case that make the hypergraph an object with a past: a detour in its construction and an
+    in-place change after the first fits (both replayable from the case)"""
+    edges = case["edges"]
+    have = set(skey(e) for e in edges)
+    weighted = case["weights"] is not None
+    if rng.random() < 0.35:
+        isstr = isinstance(labels[0], str)      # labels of one hypergraph are mutually comparable
+        tmp_node = rng.choice(["tmp", "A0"] if isstr else [-7, 99]) if rng.random() < 0.6 else None
+        pool = list(core) + ([tmp_node] if tmp_node is not None else [])
+        tmp = []
+        for _ in range(rng.randint(1, 2)):
+            if len(pool) < 2:
+                break
+            e = tuple(rng.sample(pool, rng.randint(2, min(4, len(pool)))))
+            if tmp_node is not None and not tmp:
+                e = tuple(dict.fromkeys((tmp_node,) + e))[: max(2, len(e))]
+            if skey(e) not in have and skey(e) not in set(skey(x) for x in tmp):
+                tmp.append(e)
+        if tmp or tmp_node is not None:
+            case["detour"] = {"at": rng.randint(0, len(edges)), "edges": tmp, "node": tmp_node,
+                              "weights": [rng.choice(WEIGHTS_WIDE) for _ in tmp] if weighted else None}
+    if rng.random() < 0.45:
+        # an in-place change after the first fits.  "add" changes the counts; "reweight" and "replace" keep the number of
+        # nodes and of hyperedges (cheap signatures of the object stay equal)
+        kind = rng.choice(["add", "replace", "reweight" if weighted else "replace"])
+        new_e = None
+        for _ in range(6):
+            e = tuple(rng.sample(list(core), rng.randint(2, min(4, len(core)))))
+            if skey(e) not in have:
+                new_e = e
+                break
+        if kind == "reweight":
+            j = rng.randrange(len(edges))
+            w_new = rng.choice([x for x in WEIGHTS_WIDE if x != case["weights"][j]])
+            case["mutate"] = {"kind": "reweight", "edge": edges[j], "weight": w_new}
+        elif kind == "replace" and new_e is not None and len(edges) >= 2:
+            j = rng.randrange(len(edges))
+            rest = set(x for i, e in enumerate(edges) if i != j for x in e) | set(new_e)
+            if len(rest) >= case["K"]:
+                case["mutate"] = {"kind": "replace", "edge": edges[j], "add": new_e,
+                                  "weight": rng.choice(WEIGHTS_WIDE) if weighted else None}
+        if "mutate" not in case:
+            if new_e is None:
+                new_e = (core[0], "zz_new" if isinstance(labels[0], str) else 77)
+            case["mutate"] = {"kind": "add", "add": new_e, "weight": rng.choice(WEIGHTS_WIDE) if weighted else None}
+    return case
+
+
 def gen(rng):
     K = rng.choice([2, 2, 3])
     n = rng.randint(max(3, K), 8)
@@ -110,7 +178,8 @@ def gen(rng):
         covered.add(x)
     weighted = rng.random() < 0.5
     if weighted:
-        weights = [rng.choice([1, 2, 3, 5, 0.5, 1.5, 2.25, 7]) for _ in edges]
+        wpool = WEIGHTS if rng.random() < 0.7 else WEIGHTS_WIDE
+        weights = [rng.choice(wpool) for _ in edges]
     else:
         weights = None
     cfgd = {
@@ -120,27 +189,129 @@ def gen(rng):
     }
     order = list(labels)
     rng.shuffle(order)   # order in which nodes are added (isolated ones explicitly)
-    return {"edges": edges, "weights": weights, "isolated": iso, "node_order": [x for x in order if x in iso], **cfgd}
+    case = {"edges": edges, "weights": weights, "isolated": iso, "node_order": [x for x in order if x in iso], **cfgd}
+    return gen_history(rng, case, labels, [x for x in core if x in covered] or core)
 
 
-def build(case):
+def gen_small(rng):
+    """the degenerate corner: ONE dominant hyperedge (every covered node is in it) of size 2..8, at most two further
+    hyperedges inside it, isolated nodes, K up to the number of covered nodes (above it when the start is random), the
+    default threshold mostly.  After a few sweeps whole columns of u keep a single / a few non-zero entries: psi terms,
+    denominators of the u and w updates and responsibilities vanish, rows of u have one dominant entry and the Lagrange
+    root sits next to a pole.  Returns the hypergraph part; `small_variants` adds seeds and configurations"""
+    s = rng.choice([2, 3, 4, 4, 5, 5, 6, 6, 6, 7, 7, 8])
+    labels = rng.sample(range(0, 60), s + 3) if rng.random() < 0.8 else \
+        rng.sample(["a", "b", "c", "dd", "e", "ff", "g", "h", "ii", "j", "k", "N0"], s + 3)
+    core, spare = labels[:s], labels[s:]
+    big = tuple(core)
+    edges = {skey(big): big}
+    for _ in range(rng.choice([0, 0, 0, 1, 1, 2])):
+        if s < 3:
+            break
+        e = tuple(rng.sample(core, rng.randint(2, s - 1)))
+        edges.setdefault(skey(e), e)
+    edges = list(edges.values())
+    rng.shuffle(edges)
+    iso = spare[: rng.choice([0, 1, 1, 2, 3])]
+    weights = [rng.choice(WEIGHTS_WIDE) for _ in edges] if rng.random() < 0.35 else None
+    return {"edges": edges, "weights": weights, "isolated": iso, "node_order": list(iso)}
+
+
+def small_variants(rng, hg, n):
+    """n configurations (different seeds) on one degenerate hypergraph"""
+    s = max(len(e) for e in hg["edges"])
+    out = []
+    for _ in range(n):
+        base = rng.random() < 0.7
+        if base:
+            K = rng.randint(2, max(2, min(s, 7)))          # KMeans needs K <= number of covered nodes
+            if rng.random() < 0.5:
+                K = max(K, rng.randint(2, max(2, min(s, 7))))
+        else:
+            K = rng.randint(2, s + 2)                      # more communities than the data supports
+        case = {**hg, "K": K, "seed": rng.randint(0, 10 ** 6), "n_realizations": rng.choice([1, 1, 1, 2]),
+                "max_iter": rng.choice([3, 10, 20, 20, 30, 30, 40]), "min_value_par": rng.choice([1e-5, 1e-5, 1e-5, 0.0]),
+                "normalizeU": rng.random() < 0.5, "baseline_r0": base and K <= s, "small": True}
+        out.append(case)
+    return out
+
+
+def build(case, mutated=False):
+    """the hypergraph of a case through its insertion history; `mutated`: with the in-place change of case['mutate']"""
     from hypergraphx import Hypergraph
     weights = case.get("weights")
     h = Hypergraph(weighted=weights is not None)
     edges = [tuple(e) for e in case["edges"]]
     iso = list(case.get("isolated", []))
-    half = len(edges) // 2
+    det = case.get("detour")
     # isolated nodes are added partly before, partly after the hyperedges
     for x in iso[: len(iso) // 2]:
         h.add_node(x)
+
+    def detour_in():
+        if det.get("node") is not None:
+            h.add_node(det["node"])
+        for j, e in enumerate(det["edges"]):
+            if weights is not None:
+                h.add_edge(tuple(e), weight=det["weights"][j])
+            else:
+                h.add_edge(tuple(e))
+
     for j, e in enumerate(edges):
+        if det and det["at"] == j:
+            detour_in()
         if weights is not None:
             h.add_edge(e, weight=weights[j])
         else:
             h.add_edge(e)
+    if det and det["at"] >= len(edges):
+        detour_in()
+    if det:
+        # the temporary items go away again: the content is exactly `edges` + `isolated`
+        for e in det["edges"]:
+            h.remove_edge(tuple(e))
+        if det.get("node") is not None:
+            h.remove_node(det["node"])
     for x in iso[len(iso) // 2:]:
         h.add_node(x)
+    if mutated:
+        mutate(case, h)
     return h
+
+
+def mutate(case, h):
+    mu = case["mutate"]
+    kind = mu.get("kind", "add")
+    if kind == "reweight":
+        h.set_weight(tuple(mu["edge"]), mu["weight"])
+        return
+    if kind == "replace":
+        h.remove_edge(tuple(mu["edge"]))
+    if mu.get("weight") is not None:
+        h.add_edge(tuple(mu["add"]), weight=mu["weight"])
+    else:
+        h.add_edge(tuple(mu["add"]))
+
+
+def mutated_content(case):
+    """(edges, weights) after the in-place change"""
+    mu = case["mutate"]
+    kind = mu.get("kind", "add")
+    edges = [tuple(e) for e in case["edges"]]
+    ws = list(case["weights"]) if case.get("weights") is not None else None
+    if kind == "reweight":
+        j = [skey(e) for e in edges].index(skey(mu["edge"]))
+        ws[j] = mu["weight"]
+        return edges, ws
+    if kind == "replace":
+        j = [skey(e) for e in edges].index(skey(mu["edge"]))
+        edges.pop(j)
+        if ws is not None:
+            ws.pop(j)
+    edges.append(tuple(mu["add"]))
+    if ws is not None:
+        ws.append(mu["weight"])
+    return edges, ws
 
 
 def new_model(case):
@@ -227,7 +398,14 @@ def agree_tol(static, S, L):
     by additions and subtractions (N node updates per sweep, D multiply-subtract steps each, errors relative to the largest
     value the entry ever held): 16 D N (it + 2) eps sum_{d,k} w[d,k] max_history |psi[d+1,k]|"""
     w, pm = S["after"]["w"], S["psimax"]
-    cond = math.fsum(abs(w[d][k]) * pm[d + 1][k] for d in range(len(w)) for k in range(len(w[d]))
+    # the error of row d' enters row d > d' through d - d' multiplications by entries of u (psiBar[d] = psi[d] - u_i psiBar[d-1],
+    # psi[d] += (u_i - u_i_old) psiBar[d-1]): the scale of row d is the largest of max|psi[d']| * (max u)^(d-d') over d' <= d
+    um = S.get("umax") or [1.0] * len(pm[0])
+    eff = [list(r) for r in pm]
+    for d in range(1, len(eff)):
+        for k in range(len(eff[d])):
+            eff[d][k] = max(eff[d][k], eff[d - 1][k] * min(um[k], 1e2))
+    cond = math.fsum(abs(w[d][k]) * eff[d + 1][k] for d in range(len(w)) for k in range(len(w[d]))
                      if math.isfinite(w[d][k]))
     return 1e-8 * max(1.0, abs(L)) + 16 * static["D"] * static["N"] * (S["it"] + 2) * 2.3e-16 * cond
 
@@ -290,6 +468,13 @@ def instrument(m, ev):
         ui = m.u[i].copy()
         r = real_bar(i, ks=ks)
         try:
+            if ks is not None and r:
+                den = np.sum(m.w[:, ks] * m.psiBarOmega[:-1, ks], axis=0)
+                if (den <= 0).any():
+                    ev["den0"] = ev.get("den0", 0) + 1
+        except Exception:
+            pass
+        try:
             cols = np.arange(m.K) if ks is None else np.asarray(ks)
             pre = np.zeros_like(psi)
             pre[0] = psi[0] - ui
@@ -297,6 +482,8 @@ def instrument(m, ev):
                 pre[d] = psi[d] - ui * pre[d - 1]
             if (pre[:, cols] < 0).any() or not r:
                 ev["repair"] += 1
+            if not r:
+                ev["bar_fail"] = ev.get("bar_fail", 0) + 1
         except Exception:
             ev["repair"] += 1
         return r
@@ -319,9 +506,11 @@ def instrument(m, ev):
         return out
 
     def lag_wrapper(num, den):
+        num0, den0 = np.array(num, dtype=float), np.array(np.broadcast_to(den, np.shape(num)), dtype=float)
         lam = real_lag(num, den)
         lv = float(np.asarray(lam).ravel()[0])
         ev["lams"].append(lv)
+        ev.setdefault("lag", {})[ev.get("node")] = (num0, den0)
         try:
             # how much one unit in the last place of lambda / den moves the constraint sum(num / (lambda + den)):
             # when this is not small the multiplier that enforces the constraint is not representable in binary64
@@ -331,8 +520,8 @@ def instrument(m, ev):
                 sens = np.abs(num / gap) * (np.spacing(abs(lv)) + np.spacing(np.abs(d))) / np.abs(gap)
             sens = float(np.nansum(sens[np.asarray(num) > 0])) if (np.asarray(num) > 0).any() else 0.0
             npos = np.asarray(num)[np.asarray(num) > 0]
-            if (npos.size and npos.min() < 1e-290) or ((np.asarray(num) > 0) & (d <= 0)).any():
-                sens = float("inf")   # responsibilities underflowed to denormals / a pole at 0: nothing to solve for
+            if npos.size and npos.min() < 1e-290:
+                sens = float("inf")   # responsibilities underflowed to denormals: nothing to solve for
             ev["cond"][ev.get("node")] = sens if math.isfinite(sens) else float("inf")
         except Exception:
             ev["cond"][ev.get("node")] = float("inf")
@@ -369,7 +558,9 @@ def drive(case, h):
                         "edges": [sorted(int(i) for i in m.binary_incidence[:, [j]].nonzero()[0]) for j in range(m.E)],
                         "A": [float(x) for x in m.hye_weights],
                         "sizes": [int(x) for x in m.HyeId2D],
-                        "isolates": [int(i) for i in m.isolates], "non_isolates": [int(i) for i in m.non_isolates]}
+                        "isolates": [int(i) for i in m.isolates], "non_isolates": [int(i) for i in m.non_isolates],
+                        "inc": np.asarray(m.incidence.toarray(), dtype=float).tolist(),
+                        "inc_dtype": str(m.incidence.dtype), "w_dtype": str(np.asarray(m.hye_weights).dtype)}
             maxL = -INF
             best = None
             for r in range(m.n_realizations):
@@ -377,6 +568,7 @@ def drive(case, h):
                 t.reals.append(R)
                 ev["draws"].clear()
                 ev["cond"] = {}
+                ev["lag"] = {}
                 m._initialize_psiOmega()
                 psimax = np.abs(m.psiOmega.copy())
                 m._initialize_u_w(hyperEdges=m.hyperEdges, baseline_HySC=(m.baseline_r0 if r == 0 else False))
@@ -391,6 +583,7 @@ def drive(case, h):
                 R["psimax0"] = psimax.tolist()
                 psimax = np.maximum(psimax, np.abs(np.nan_to_num(m.psiOmega, nan=0.0, posinf=1e300, neginf=1e300)))
                 R["init"] = snapshot(m)
+                umax = np.maximum(np.abs(np.asarray(R["dummy"])).max(axis=0), np.abs(np.nan_to_num(m.u, nan=0.0, posinf=1e300)).max(axis=0))
                 R["init_ll"] = float(m._LogLikelihood())
                 loglik, ntol, conv, it = -INF, 0, False, 0
                 while not conv and it < m.max_iter:
@@ -407,11 +600,17 @@ def drive(case, h):
                     ev["cond"] = {**cond_before, **ev["cond"]}
                     after = snapshot(m)
                     psimax = np.maximum(psimax, np.abs(np.nan_to_num(m.psiOmega, nan=0.0, posinf=1e300, neginf=1e300)))
+                    umax = np.maximum(umax, np.abs(np.nan_to_num(m.u, nan=0.0, posinf=1e300, neginf=1e300)).max(axis=0))
                     perm = [int(x) for x in ev["draws"][0][4]] if ev["draws"] else None
                     loglik, ntol, conv = m._check_for_convergence(it, loglik, ntol, conv)
                     S = {"it": it, "before": before, "after": after, "perm": perm, "lams": list(ev["lams"]),
                          "repair": ev["repair"], "loglik": float(loglik), "conv": bool(conv),
-                         "u_old_ok": bool(np.array_equal(m.u_old, m.u)), "psimax": psimax.tolist(), "cond": sweep_cond, "trace": trace}
+                         "u_old_ok": bool(np.array_equal(m.u_old, m.u)), "psimax": psimax.tolist(), "cond": sweep_cond, "trace": trace,
+                         "condmap": dict(ev["cond"]), "lagmap": dict(ev.get("lag", {})), "den0": ev.get("den0", 0),
+                         "bar_fail": ev.get("bar_fail", 0),
+                         "umax": umax.tolist()}
+                    ev["den0"] = 0
+                    ev["bar_fail"] = 0
                     if ill_conditioned(before) or ill_conditioned(after):
                         R["ill"] = True
                     S["ill"] = R["ill"]
@@ -423,6 +622,7 @@ def drive(case, h):
                 R["u"] = m.u.copy()
                 R["w"] = m.w.copy()
                 R["cond"] = dict(ev["cond"])
+                R["lag"] = dict(ev.get("lag", {}))
                 if maxL < loglik:
                     maxL = loglik
                     best = r
@@ -556,10 +756,191 @@ def compare_state(ctx, case, what, model, impl, skip_bar=False, psimax=None, rto
     return None
 
 
-def check_case(ctx, drv, case, full=True):
+def _ford(x):
+    b = struct.unpack("<q", struct.pack("<d", x))[0]
+    return b if b >= 0 else -(b & 0x7FFFFFFFFFFFFFFF)
+
+
+def _funord(n):
+    return struct.unpack("<d", struct.pack("<q", n if n >= 0 else (-n) | -0x8000000000000000))[0]
+
+
+def lagrange_step(num, den):
+    """how much the constraint sum(num / (lam + den)) = 1 moves over ONE binary64 step of lam at its root on the branch
+    lam + den > 0 (found exactly, by bisection on the binary64 grid): the part of |row sum - 1| that no multiplier can
+    remove.  inf when the grid point next to the pole is already beyond the root"""
+    import numpy as np
+    num, den = np.asarray(num, dtype=float), np.broadcast_to(np.asarray(den, dtype=float), np.shape(num))
+    pos = num > 0
+    if not pos.any():
+        return 0.0
+    n, d = num[pos], den[pos]
+    if not (np.isfinite(n).all() and np.isfinite(d).all()):
+        return float("inf")
+
+    def f(x):
+        with np.errstate(all="ignore"):
+            g = x + d
+            if (g <= 0).any():
+                return float("inf")
+            v = float(np.sum(n / g)) - 1.0
+        return v if v == v else float("inf")
+    lo = float(-d.min())
+    hi = lo + 2.0 * float(n.sum()) + abs(lo) * 1e-3 + 1e-300
+    if not (f(hi) < 0):
+        return float("inf")
+    a, b = _ford(lo), _ford(hi)
+    while b - a > 1:
+        c = (a + b) // 2
+        if f(_funord(c)) > 0:
+            a = c
+        else:
+            b = c
+    fa, fb = f(_funord(a)), f(_funord(b))
+    return fa - fb if math.isfinite(fa) else float("inf")
+
+
+def validity(ctx, U, W, L, iso, normU, K, minv, cond, lag=None):
+    """the property's words on one (u, w, log-likelihood) triple; returns a text or None"""
+    import numpy as np
+    N = U.shape[0]
+    if not np.isfinite(U).all() or not np.isfinite(W).all() or not math.isfinite(L):
+        return "non-finite entries in (u, w, maxL)"
+    if (U < 0).any() or (W < 0).any():
+        return "negative entries in u or w"
+    if any(U[i].any() for i in iso):
+        return "non-zero row for an isolated node"
+    if normU:
+        sums = U.sum(axis=1)
+        nz = [i for i in range(N) if U[i].any()]
+        # entries below min_value_par are zeroed after the normalisation: K * min_value_par slack; a multiplier that
+        # binary64 cannot represent (sensitivity of the constraint to one ulp) is the ill-conditioned class
+        def sens(i):
+            # first-order estimate taken at the returned multiplier, and the exact step of the constraint at its root
+            c = cond.get(i, 0.0)
+            if lag and i in lag and abs(sums[i] - 1) > 1e-6 + K * minv + 16 * c:
+                c = max(c, lagrange_step(*lag[i]))
+            return c
+        off = [i for i in nz if abs(sums[i] - 1) > 1e-6 + K * minv and abs(sums[i] - 1) > 1e-6 + K * minv + 16 * sens(i)]
+        if any(abs(sums[i] - 1) > 1e-6 + K * minv for i in nz) and not off and ctx is not None:
+            ctx.count("rowsum_off_with_unrepresentable_multiplier")
+        if off:
+            return f"normalizeU=True but non-zero rows {off} sum to {[float(sums[i]) for i in off]}"
+    return None
+
+
+def inputs_def(case, h, st):
+    """the hyperedge weights per incidence column and the weighted incidence matrix, from the case (definition side);
+    returns (A, problem)"""
+    try:
+        mapping = h.get_mapping()
+        nodes = sorted(set(x for e in case["edges"] for x in e) | set(case.get("isolated", [])), key=repr)
+        idx = {x: int(mapping.transform([x])[0]) for x in nodes}
+    except Exception as ex:  # noqa: BLE001
+        return None, f"get_mapping fails: {type(ex).__name__}: {ex}"
+    ws = case.get("weights") or [1] * len(case["edges"])
+    want = {tuple(sorted(idx[x] for x in e)): float(w_) for e, w_ in zip(case["edges"], ws)}
+    if sorted(want) != sorted(tuple(c) for c in st["edges"]):
+        return None, f"columns of the incidence matrix {sorted(st['edges'])} are not the hyperedges {sorted(want)}"
+    A = [want[tuple(c)] for c in st["edges"]]
+    if [float(x) for x in st["A"]] != A:
+        return A, f"hye_weights {st['A']} (dtype {st['w_dtype']}) are not the weights of the hyperedges {A}"
+    for j, c in enumerate(st["edges"]):
+        for i in range(st["N"]):
+            w_ = A[j] if i in c else 0.0
+            if st["inc"][i][j] != w_:
+                return A, (f"weighted incidence matrix (dtype {st['inc_dtype']}) has {st['inc'][i][j]!r} at node {i}, "
+                           f"hyperedge {j}; the hypergraph says {w_!r}")
+    return A, None
+
+
+def same_fit(a, b):
+    import numpy as np
+    if a[0] != b[0]:
+        return False
+    if a[0] == "exc":
+        return True
+    return bool(np.array_equal(np.asarray(a[1]), np.asarray(b[1])) and np.array_equal(np.asarray(a[2]), np.asarray(b[2]))
+                and a[3] == b[3] and a[4] == b[4])
+
+
+def check_history(ctx, case, h, r1, hysc=True):
+    """the same object after other fits and after an in-place change: results depend on the current content and the seed only"""
+    import numpy as np
+    other = {**case, "seed": case["seed"] + 1, "n_realizations": 1, "max_iter": min(case["max_iter"], 3)}
+    ro = run_fit(other, h)
+    try:
+        with quiet():
+            h0 = build(case)
+    except Exception:  # noqa: BLE001
+        return
+    ro0 = run_fit(other, h0)       # the other seed on an object that was never fitted
+    if hysc:
+        run_hysc(other, h)
+    r3 = run_fit(case, h)
+    ctx.count("history_refits")
+    if not same_fit(ro, ro0):
+        ctx.violation(other, "HypergraphMT.fit on a hypergraph that was fitted before with another seed differs from the same "
+                             "call on a freshly built equal hypergraph")
+    if not same_fit(r1, r3):
+        ctx.violation(case, "HypergraphMT.fit with the same seed on the same hypergraph differs after a fit with another seed in between")
+    mu = case.get("mutate")
+    if not mu:
+        return
+    desc = f"{mu.get('kind', 'add')} {mu.get('edge', '')} {mu.get('add', '')} {mu.get('weight', '')}"
+    try:
+        with quiet():
+            mutate(case, h)
+            h2 = build(case, mutated=True)
+    except Exception as ex:  # noqa: BLE001
+        ctx.violation(case, f"cannot change the hypergraph in place ({desc}): {type(ex).__name__}: {ex}")
+        return
+    short = {**case, "n_realizations": 1, "max_iter": min(case["max_iter"], 5)}    # a stale cache shows in the first sweeps
+    ra, rb = run_fit(short, h), run_fit(short, h2)
+    ctx.count("history_mutations")
+    ctx.count("history_mutations_" + mu.get("kind", "add"))
+    if not same_fit(ra, rb):
+        what = "raises / returns" if ra[0] != rb[0] else "returns different (u, w, maxL, train_info)"
+        ctx.violation(case, f"after the in-place change ({desc}) of a hypergraph that was fitted before, "
+                            f"HypergraphMT.fit {what} compared with a freshly built equal hypergraph")
+    edges2, _ = mutated_content(case)
+    if hysc and len(set(x for e in edges2 for x in e)) >= case["K"]:
+        ha, hb = run_hysc(case, h), run_hysc(case, h2)
+        if ha[0] != hb[0] or (ha[0] == "ok" and not np.array_equal(np.asarray(ha[1]), np.asarray(hb[1]))):
+            ctx.violation(case, f"after the in-place change ({desc}) HySC.fit differs from a freshly built equal hypergraph")
+
+
+def trimmed(case, R, it):
+    """the configuration whose fit returns the state after sweep `it` of realisation R"""
+    c = {k: v for k, v in case.items() if k not in ("mutate",)}
+    c.update({"seed": int(R["seed"]), "n_realizations": 1, "max_iter": it + 1,
+              "baseline_r0": bool(case["baseline_r0"]) if R["r"] == 0 else False})
+    return c
+
+
+def confirm_state(ctx, case, h, R, S, iso, K, minv, bad):
+    """an invalid state after a sweep: run fit itself on the configuration that returns this state"""
+    import numpy as np
+    c = trimmed(case, R, S["it"])
+    r = run_fit(c, h)
+    if r[0] == "exc":
+        ctx.violation(c, f"HypergraphMT.fit does not return: {r[1]} (state after sweep {S['it']} of realisation {R['r']}: {bad})")
+        return True
+    U, W = np.asarray(r[1], dtype=float), np.asarray(r[2], dtype=float)
+    b2 = validity(None, U, W, r[3], iso, case["normalizeU"], K, minv, S["condmap"], S["lagmap"]) if U.ndim == 2 and W.ndim == 2 else "shape"
+    if b2:
+        ctx.violation(c, b2)
+        return True
+    ctx.count("invalid_intermediate_state_not_confirmed_by_fit")
+    return False
+
+
+def check_case(ctx, drv, case, full=True, light=False):
     """all oracles and the correspondence for one configuration; returns a dict of facts (for witnesses)"""
     import numpy as np
     facts = {"decrease_clamp": None, "decrease_ill": None, "mismatch_ill": None, "decrease_repair": None}
+    # HySC (k-means) needs at least K covered nodes; HypergraphMT with a random start does not
+    full = full and case["K"] <= len(set(x for e in case["edges"] for x in e))
     try:
         with quiet():
             h = build(case)
@@ -571,11 +952,24 @@ def check_case(ctx, drv, case, full=True):
     st = t.static
     any_ill = any(R["ill"] for R in t.reals)
     key = repr((sorted(map(repr, case["edges"])), case.get("weights"), sorted(map(repr, case.get("isolated", []))),
-                {k: case[k] for k in ("K", "seed", "n_realizations", "max_iter", "min_value_par", "normalizeU", "baseline_r0")}))
+                {k: case[k] for k in ("K", "seed", "n_realizations", "max_iter", "min_value_par", "normalizeU", "baseline_r0")},
+                case.get("detour"), case.get("mutate")))
 
     # ---- the real entry point, twice ------------------------------------------------------
-    r1 = run_fit(case, h)
-    r2 = run_fit(case, h)
+    if light:
+        # cheap mode of the degenerate class: only the step-by-step replica of fit (same calls in the same order); the
+        # entry point itself runs in every `full_every`-th configuration and whenever a state has to be confirmed
+        if t.error or t.best is None:
+            r1 = ("exc", "step-by-step run: " + (t.error or "no realisation above -1e10"))
+        else:
+            r1 = ("ok", t.reals[t.best]["u"], t.reals[t.best]["w"], t.maxL,
+                  [(R["r"], int(R["seed"]), it, ll, cv) for R in t.reals for (it, ll, cv) in R["rows"]], t.m)
+            if len(t.reals) != case["n_realizations"]:
+                r1 = ("exc", "step-by-step run stopped")
+        r2 = r1
+    else:
+        r1 = run_fit(case, h)
+        r2 = run_fit(case, h)
     nontrivial = False
     if r1[0] == "exc" or t.error:
         # the call must succeed; the only tolerated failure is the ill-conditioned class D35
@@ -611,29 +1005,19 @@ def check_case(ctx, drv, case, full=True):
     if not ok_shape:
         ctx.violation(case, f"shapes u {U.shape}, w {W.shape}; expected {(N, K)}, {(D - 1, K)}")
     else:
-        bad = None
-        if not np.isfinite(U).all() or not np.isfinite(W).all() or not math.isfinite(maxL):
-            bad = "non-finite entries in (u, w, maxL)"
-        elif (U < 0).any() or (W < 0).any():
-            bad = "negative entries in u or w"
-        elif any(U[i].any() for i in iso):
-            bad = "non-zero row for an isolated node"
-        elif case["normalizeU"]:
-            sums = U.sum(axis=1)
-            nz = [i for i in range(N) if U[i].any()]
-            cond = t.reals[t.best]["cond"] if t.best is not None else {}
-            # entries below min_value_par are zeroed after the normalisation: K * min_value_par slack; a multiplier that
-            # binary64 cannot represent (sensitivity of the constraint to one ulp) is the ill-conditioned class
-            off = [i for i in nz if abs(sums[i] - 1) > 1e-6 + K * minv + 16 * cond.get(i, 0.0)]
-            if any(abs(sums[i] - 1) > 1e-6 + K * minv for i in nz) and not off:
-                ctx.count("rowsum_off_with_unrepresentable_multiplier")
-            if off:
-                bad = f"normalizeU=True but non-zero rows {off} sum to {[float(sums[i]) for i in off]}"
+        cond = t.reals[t.best]["cond"] if t.best is not None else {}
+        bad = validity(ctx, U, W, maxL, iso, case["normalizeU"], K, minv, cond, t.reals[t.best].get("lag") if t.best is not None else None)
         if bad:
             if tolerated:
                 facts["decrease_ill"] = bad
             else:
                 ctx.violation(case, bad)
+    # the arrays the EM works on are the hypergraph's (weights not truncated / permuted, also after a detour)
+    A_def, problem = inputs_def(case, h, st)
+    if problem:
+        ctx.disagree(case, "inputs of the EM: " + problem)
+    if A_def is not None:
+        st = {**st, "A": A_def}
     # maxL = max over realisations of the last recorded value
     last = {}
     for (r, sd, it, ll, cv) in rows:
@@ -661,6 +1045,7 @@ def check_case(ctx, drv, case, full=True):
     # ---- ascent and agreement oracles on every sweep ----------------------------------------
     n_sweeps = 0
     increased = False
+    confirmed = False
     for R in t.reals:
         prev = None
         for S in R["sweeps"]:
@@ -673,6 +1058,21 @@ def check_case(ctx, drv, case, full=True):
                 ctx.count("sweeps_ill_conditioned")
             if not S["u_old_ok"]:
                 ctx.violation({**case, "realization": R["r"], "iter": S["it"]}, "u_old != u after a sweep")
+            if S.get("den0"):
+                ctx.count("sweeps_with_vanishing_u_denominator")
+            if S.get("bar_fail"):
+                ctx.count("sweeps_with_psiBar_failure_flag")
+            # the state after this sweep is what fit returns for max_iter = it + 1 (one realisation, this seed):
+            # valid output is demanded of every such state, not only of the last one of the best realisation
+            if ok_shape and not confirmed and not (S is R["sweeps"][-1] and R["r"] == t.best):
+                Us, Ws = np.asarray(S["after"]["u"], dtype=float), np.asarray(S["after"]["w"], dtype=float)
+                b = validity(None, Us, Ws, L, iso, case["normalizeU"], K, minv, S["condmap"], S["lagmap"]) if Us.shape == (N, K) else None
+                ctx.count("intermediate_states_checked")
+                if b:
+                    if S["ill"] and minv == 0:
+                        ctx.count("invalid_intermediate_state_ill_conditioned")
+                    else:
+                        confirmed = confirm_state(ctx, case, h, R, S, iso, K, minv, b)
             if prev is not None and L > prev:
                 increased = True
             if not case["normalizeU"] and prev is not None and L < prev - 1e-9 * max(1.0, abs(prev)):
@@ -718,6 +1118,8 @@ def check_case(ctx, drv, case, full=True):
     # ---- HySC --------------------------------------------------------------------------------
     if full:
         check_hysc(ctx, drv, case, h, st)
+    if case.get("small"):
+        ctx.count("degenerate_cases")
 
     # ---- model correspondence ----------------------------------------------------------------
     if drv is not None and st is not None:
@@ -800,6 +1202,8 @@ def check_case(ctx, drv, case, full=True):
             want = f"{q(t.maxL)} {-1 if t.best is None else t.best}"
             if a != want:
                 ctx.disagree(case, f"best-realisation bookkeeping: model {a!r}, implementation {want!r}")
+    if case.get("mutate") and not light:
+        check_history(ctx, case, h, r1, hysc=full)
     return facts
 
 
@@ -926,19 +1330,22 @@ def check_hysc(ctx, drv, case, h, st):
 # ------------------------------------------------------------------------------------------
 # exact (Rat) correspondence on small dyadic states set on the implementation's public attributes
 
-def exact_state_case(ctx, drv, rng):
+def exact_state_case(ctx, drv, rng, sparse=False):
     """build a HypergraphMT object on a tiny hypergraph, overwrite u, w with dyadic values, psi with the exact
     elementary symmetric polynomials, run the real _update_rho + _update_em and the Rat model on the same state"""
     import numpy as np
-    K = rng.choice([2, 2, 3])
-    n = rng.randint(3, 5)
-    dmax = rng.choice([2, 3, 3])
+    K = rng.choice([2, 2, 3, 4] if sparse else [2, 2, 3])
+    n = rng.randint(3, 4) if sparse else rng.randint(3, 5)     # exact rationals grow with every node update and degree
+    dmax = rng.choice([2, 3, 3, 4] if sparse else [2, 3, 3])
     edges = set()
-    for _ in range(rng.randint(2, 4)):
+    for _ in range(rng.randint(1, 3) if sparse else rng.randint(2, 4)):
         edges.add(tuple(sorted(rng.sample(range(n), rng.randint(2, min(dmax, n))))))
+    if sparse and rng.random() < 0.5:
+        edges.add(tuple(range(min(n, 4))))     # one hyperedge over (almost) everything
     edges = sorted(edges)
     weights = [rng.choice([1, 2, 3]) for _ in edges]
-    case = {"edges": edges, "weights": weights, "isolated": [n] if rng.random() < 0.4 else [], "K": K, "seed": rng.randint(0, 999),
+    case = {"edges": edges, "weights": weights, "isolated": [n] if rng.random() < 0.4 and not (sparse and dmax > 3) else [],
+            "K": K, "seed": rng.randint(0, 999),
             "n_realizations": 1, "max_iter": 1, "min_value_par": rng.choice([0.0, 0.125]), "normalizeU": False,
             "baseline_r0": False, "exact": True}
     try:
@@ -953,7 +1360,12 @@ def exact_state_case(ctx, drv, rng):
             m._initial_update_u_psi(r=0)
             N, D = int(m.N), int(m.D)
             iso = set(int(i) for i in m.isolates)
-            U = [[Fraction(0) if i in iso else Fraction(rng.choice([1, 1, 2, 3, 4, 5, 6, 8]), 8) for _ in range(K)] for i in range(N)]
+            # dense states, and sparse ones: zero entries, columns with a single / no non-zero entry (the elementary symmetric
+            # polynomials of such a column vanish from some degree on: denominators of the u and w updates become exactly 0)
+            sparse_cols = [rng.random() < (0.6 if sparse else 0.0) for _ in range(K)]
+            keep = [rng.sample(range(N), rng.choice([0, 1, 1, 2])) if sc else None for sc in sparse_cols]
+            U = [[Fraction(0) if i in iso or (keep[k] is not None and i not in keep[k]) or (sparse and rng.random() < 0.15)
+                  else Fraction(rng.choice([1, 1, 2, 3, 4, 5, 6, 8]), 8) for k in range(K)] for i in range(N)]
             sizes = set(len(e) for e in edges)
             Wm = [[Fraction(rng.randint(1, 8), 4) if (d + 2) in sizes else Fraction(0) for _ in range(K)] for d in range(D - 1)]
             from itertools import combinations
@@ -997,10 +1409,27 @@ def exact_state_case(ctx, drv, rng):
     # exact invariants of the model's own answer (C17_psi, C17_loglik_agrees) - cheap sanity of the driver
     if ms["penI"] != ms["penD"]:
         ctx.disagree(full, f"Rat model: incremental penalty {ms['penI']} != definition {ms['penD']}")
-    if ill_conditioned(after) or any(x >= 100.0 for r in after["u"] for x in r):
+    hi_i = [(i, k) for i, r in enumerate(after["u"]) for k, x in enumerate(r) if not (x < 100.0)]
+    hi_m = [(i, k) for i, r in enumerate(ms["u"]) for k, x in enumerate(r) if not (x < 100.0)]
+    if any(0 < x < 1e-12 for r in after["u"] + ms["u"] for x in r):
+        # an entry of order EPS = 1e-20 (only with threshold 0): binary64 absorbs it next to an entry of order 1, the
+        # next denominator is exactly 0 in the implementation and 1e-20 in exact arithmetic
+        ctx.count("exact_states_skipped_entry_of_order_EPS")
+        return
+    if hi_i != hi_m and not ill_conditioned(after):
+        # an entry at the upper clamp / not finite on one side only: a quotient with a vanishing denominator
+        ctx.disagree(full, f"exact-state sweep: entries of u at the upper clamp or not finite: implementation {hi_i} "
+                           f"({[after['u'][i][k] for i, k in hi_i][:4]}), model {hi_m}")
+        return
+    if ill_conditioned(after) or hi_i or hi_m:
         ctx.count("exact_states_skipped_ill_conditioned")
         return
-    dd = compare_state(ctx, case, "exact-state sweep", ms, after, psimax=P)
+    if sparse:
+        ctx.count("exact_sparse_states_compared")
+    # psi / psiBar rows are maintained by additions and subtractions of products of the rows below: rounding error of a
+    # row is relative to the largest entry of the whole table (a row that is exactly 0 comes out as 1e-17)
+    gmax = float(max([x for r in P for x in r] + [Fraction(1, 8)]))
+    dd = compare_state(ctx, case, "exact-state sweep", ms, after, psimax=[[gmax] * K for _ in range(D)])
     if dd is None and not close(ll_from_model(static, ms), ll, 1.0):
         dd = f"log-likelihood: implementation {ll!r}, model {ll_from_model(static, ms)!r}"
     if dd is not None:
@@ -1052,25 +1481,138 @@ def replay_witnesses(ctx, drv):
         ctx.count(f"witness_{wid}_reproduced", 1 if hit else 0)
 
 
-def report_known(ctx, facts):
-    pass
+# ------------------------------------------------------------------------------------------
+# committed regression corpus: the witnesses of every defect that was repaired in /repo (known_findings.json `fixed:`
+# lines).  Replayed first on every run with all oracles and the model; a repaired defect that comes back is a VIOLATION.
+
+def _w(edges, iso, K, seed, max_iter, minv, normU, base, weights=None, nreal=1):
+    return {"edges": [tuple(e) for e in edges], "weights": weights, "isolated": list(iso), "K": K, "seed": seed,
+            "n_realizations": nreal, "max_iter": max_iter, "min_value_par": minv, "normalizeU": normU, "baseline_r0": base}
+
+
+REGRESSIONS = [
+    # D30 (40051b0 / bb5c8fa): csr_array.getnnz - any hypergraph, HypergraphMT.fit and HySC.fit raised at start
+    ("D30", "40051b0+bb5c8fa", "fit raised AttributeError at start (csr_array.getnnz)",
+     _w([(0, 1, 2), (1, 2), (2, 3)], [4], 2, 10, 5, 1e-5, False, True)),
+    ("D30", "40051b0+bb5c8fa", "fit raised AttributeError at start (csr_array.getnnz)",
+     _w([("a", "b"), ("b", "c", "d")], [], 2, 3, 3, 0.0, False, False, weights=[1.5, 2])),
+    # D37 (37ee6cd): _update_u divided by a vanishing denominator
+    ("D37", "37ee6cd", "u update divides by a vanishing denominator: NaN memberships, fit raised AssertionError",
+     _w([(17, 18, 0, 6)], [29], 3, 606512, 20, 1e-5, False, True)),
+    # D36 (11ddcfc): multiplier on a wrong branch / away from a root
+    ("D36", "11ddcfc", "normalizeU=True: multiplier on a branch with negative memberships, row sums 1.07",
+     _w([(39, 50, 23, 22), (15, 50, 23, 22), (39, 50), (15, 22), (39, 15, 23, 22), (50, 22), (39, 15)], [9, 46], 2, 130235, 1, 0.0,
+        True, False)),
+    ("D36", "11ddcfc", "normalizeU=True: multiplier away from the root of the branch with non-negative memberships, row sums 0.025 / 1.03",
+     _w([(36, 43, 13)], [27, 37], 2, 943381, 5, 1e-5, True, True)),
+    ("D36", "11ddcfc", "normalizeU=True: multiplier away from the root, row sums 0.13 / 0.01",
+     _w([(59, 3, 20), (3, 20)], [], 3, 545594, 5, 1e-5, True, True)),
+    ("D36", "11ddcfc", "normalizeU=True: multiplier away from the root, row sums 3e-4",
+     _w([(2, 28, 24)], [], 2, 314046, 20, 1e-5, True, True)),
+    ("D36", "11ddcfc", "normalizeU=True, more communities than covered nodes, random start: row sums 1.05 / 1.29",
+     _w([(27, 43, 19, 47), (43, 19, 27)], [20, 16], 5, 262881, 30, 1e-5, True, False)),
+    ("D36", "11ddcfc", "normalizeU=True, one heavy hyperedge: row sums 5.6e-4",
+     _w([(29, 4, 57, 10, 17)], [33, 52], 5, 305248, 10, 1e-5, True, True, weights=[40])),
+    ("D36", "11ddcfc", "normalizeU=True, fractional weights: row sums 1.6e-4 / 1.0007",
+     _w([(11, 3, 53, 32, 14), (14, 11)], [39, 10], 4, 34429, 5, 1e-5, True, True, weights=[2.25, 1.5], nreal=2)),
+    # D37, further witnesses (one dominant hyperedge, K close to its size, default threshold)
+    ("D37", "37ee6cd", "u update divides by a vanishing denominator (two realisations, three isolated nodes)",
+     _w([(1, 6, 42, 40, 36)], [57, 39, 27], 4, 518349, 60, 1e-5, False, True, nreal=2)),
+    ("D37", "37ee6cd", "u update divides by a vanishing denominator (weighted, a sub-hyperedge)",
+     _w([(2, 41, 44, 27), (2, 41)], [37], 4, 7907, 20, 1e-5, False, True, weights=[7, 2])),
+    ("D37", "37ee6cd", "u update divides by a vanishing denominator (K = 3 on five nodes)",
+     _w([(36, 11, 33, 52, 5)], [56], 3, 507768, 30, 1e-5, False, True)),
+]
+
+
+REGRESSION_SIGNATURE = {     # how the defect showed: anything else on the same input is reported as an ordinary violation
+    "D30": ("AttributeError",),
+    "D37": ("does not return", "non-finite"),
+    "D36": ("normalizeU=True but non-zero rows", "negative entries"),
+}
+STAGES = [x for x in (os.environ.get("C17_STAGES") or "corpus,known,esymm,sparse,general,small").split(",") if x]   # debugging aid
+
+
+def replay_regressions(ctx, drv):
+    for did, fix, what, wcase in REGRESSIONS:
+        sub = hgxv.Ctx(ctx.prop, ctx.tier, ctx.seed)
+        sub.deadline = ctx.deadline
+        check_case(sub, drv, dict(wcase), full=True)
+        for c, wh in sub.violations + sub.disagreements:
+            c = dict(c) if isinstance(c, dict) else {"case": c}
+            if any(sg in wh for sg in REGRESSION_SIGNATURE[did]):
+                ctx.violation(c, f"REGRESSION of the repaired defect {did} (fix {fix}: {what}) on its committed witness: {wh}")
+            else:   # something else breaks on this input: an ordinary violation
+                ctx.violation(c, f"{wh} [input: committed witness of the repaired defect {did}]")
+        for k, v in sub.extra.items():
+            if k.startswith(("sweeps_with_vanishing", "rowsum_off", "invalid_intermediate")):
+                ctx.count("regression_corpus_" + k, v)
+        ctx.count("regression_witnesses_replayed")
+        ctx.count(f"regression_witnesses_{did}")
+
+
+def run_small(ctx, drv, n_graphs, per_graph, full_every):
+    """the degenerate class: many cheap configurations, each through fit + the step-by-step run with the validity
+    oracles after every sweep; every `full_every`-th also twice, through HySC and the model"""
+    j = 0
+    for g in range(n_graphs):
+        hg = gen_small(ctx.rng)
+        for case in small_variants(ctx.rng, hg, per_graph):
+            j += 1
+            covered = len(set(x for e in case["edges"] for x in e))
+            fullc = full_every and j % full_every == 0
+            if fullc:
+                check_case(ctx, drv, case, full=case["K"] <= covered)
+            else:
+                check_case(ctx, None, case, full=False, light=True)
+            if ctx.too_many() or (ctx.time_left() is not None and ctx.time_left() < 8):
+                ctx.count("stopped_early_degenerate_cases_done", j)
+                return False
+    return True
 
 
 def run(ctx):
     drv = ctx.driver() if ctx.model_available else None
-    replay_witnesses(ctx, drv)
-    if drv is not None:
+    if "corpus" in STAGES:
+        replay_regressions(ctx, drv)
+    if "known" in STAGES:
+        replay_witnesses(ctx, drv)
+    if drv is not None and "esymm" in STAGES:
         esymm_lines(ctx, drv, ctx.rng, ctx.scale(40, 400))
-    n = ctx.scale(26, 1400)
+    # exact rational sweeps have a heavy tail (the rationals grow with every node update): both exact stages stop at a time cap
+    t_exact = {"sparse": 0.0, "dense": 0.0}
+    cap = {"sparse": ctx.scale(3.0, 150.0), "dense": ctx.scale(4.0, 250.0)}
+
+    def exact(kind):
+        if t_exact[kind] > cap[kind]:
+            ctx.count(f"exact_{kind}_states_not_run_time_cap")
+            return
+        ta = time.time()
+        exact_state_case(ctx, drv, ctx.rng, sparse=(kind == "sparse"))
+        t_exact[kind] += time.time() - ta
+
+    if drv is not None and "sparse" in STAGES:
+        # (c) sparse exact states
+        for _ in range(ctx.scale(30, 400)):
+            exact("sparse")
+            if ctx.too_many():
+                return
+    # (a) the general class
+    n = ctx.scale(26, 1400) if "general" in STAGES else 0
     n_exact = ctx.scale(12, 300)
     for j in range(n):
         case = gen(ctx.rng)
         check_case(ctx, drv, case)
         if drv is not None and j < n_exact:
-            exact_state_case(ctx, drv, ctx.rng)
-        if ctx.too_many() or (ctx.time_left() is not None and ctx.time_left() < 8):
+            exact("dense")
+        if ctx.too_many():
+            return
+        if ctx.time_left() is not None and ctx.time_left() < (8 if ctx.tier == "quick" else 200):
             ctx.count("stopped_early_cases_done", j + 1)
             break
+    # (b) degenerate hypergraphs: cheap, many seeds
+    if "small" in STAGES:
+        run_small(ctx, drv, ctx.scale(26, 500), 4, ctx.scale(26, 15))
 
 
 def replay(ctx, case):
@@ -1079,4 +1621,5 @@ def replay(ctx, case):
     for k in ("realization", "iter", "from", "to", "line", "u", "w", "perm", "exact"):
         case.pop(k, None)
     case["edges"] = [tuple(e) for e in case["edges"]]
-    check_case(ctx, drv, case)
+    covered = len(set(x for e in case["edges"] for x in e))
+    check_case(ctx, drv, case, full=case["K"] <= covered)
